@@ -270,3 +270,65 @@ func reachableFrom(r *core.Run, roots []*ssa.Function) map[*ssa.Function]bool {
 	}
 	return out
 }
+
+// definitelyNil: the value is the nil constant on every path (directly, or a
+// load of a named result whose reaching stores are all nil).
+func definitelyNil(r *core.Run, v ssa.Value) bool {
+	if core.IsNilConst(v) {
+		return true
+	}
+	s := r.P.SliceOf(v, core.SliceOpts{Depth: -1})
+	if len(s.Calls) > 0 {
+		return false
+	}
+	n := 0
+	for l := range s.Leaves {
+		if l == "const:nil" {
+			n++
+			continue
+		}
+		if strings.HasPrefix(l, "alloc:") {
+			continue
+		}
+		return false
+	}
+	return n > 0
+}
+
+// edgeReturn follows a branch edge through unconditional jumps and returns the
+// Return instruction it inevitably reaches (nil if it branches again first).
+func edgeReturn(iff *ssa.If, branch bool) *ssa.Return {
+	b := iff.Block()
+	if len(b.Succs) != 2 {
+		return nil
+	}
+	t := b.Succs[1]
+	if branch {
+		t = b.Succs[0]
+	}
+	for hops := 0; hops < 4 && t != nil; hops++ {
+		if len(t.Instrs) == 0 {
+			return nil
+		}
+		switch last := t.Instrs[len(t.Instrs)-1].(type) {
+		case *ssa.Return:
+			return last
+		case *ssa.Jump:
+			t = t.Succs[0]
+		default:
+			return nil
+		}
+	}
+	return nil
+}
+
+// vpos renders the position of a value (parameters have no instruction).
+func vpos(r *core.Run, v ssa.Value) string {
+	if in, ok := v.(ssa.Instruction); ok {
+		return r.P.InstrPos(in)
+	}
+	if v.Parent() != nil {
+		return r.P.Pos(v.Parent().Pos())
+	}
+	return "?"
+}
